@@ -1,0 +1,10 @@
+//go:build verif && !android && !ios
+
+package safeprime
+
+// Verification hook for property C16 (build tag "verif"): the unexported byte preparation of
+// Generate, so that it can be compared with its model for every first-byte value.
+// Add-only; compiled out without the tag.
+
+// VerifPrepareBytes runs prepareBytes on the slice in place.
+func VerifPrepareBytes(bytes []byte, b uint) { prepareBytes(bytes, b) }
